@@ -154,7 +154,7 @@ def run(F, R, tier):
     arms_checked = 0
     for m in [n for n in walk(rp["body"]) if n["k"] == "Match"]:
         for arm in m["arms"]:
-            if pat_text(arm["pat"]).startswith("std::result::Result::Err(") and "result" in expr_text(m["scrut"]):
+            if pat_text(arm["pat"]).startswith("std::result::Result::Err(") and tyc(F, m["scrut"], "Result<graph::PendingInfoResponse"):
                 arms_checked += 1
                 bs = pat_bindings(arm["pat"])
                 err_lid = bs[0]["lid"] if bs else None
@@ -176,7 +176,7 @@ def run(F, R, tier):
                 chk = [n for n in walk(arm["body"]) if callee_matches(n, ["Builder::check_specifier"])]
                 R.ob("C03-c", "redirect of a failed load is recorded (check_specifier) before the error is stored", bool(chk) and bool(stores) and may_reach(F, chk[0], stores[0]),
                      "Err arm does not call check_specifier before storing the error: the requested specifier keeps its Pending slot", where(arm["body"]))
-            if pat_text(arm["pat"]).startswith("std::result::Result::Ok(") and "result" in expr_text(m["scrut"]):
+            if pat_text(arm["pat"]).startswith("std::result::Result::Ok(") and tyc(F, m["scrut"], "Result<graph::PendingInfoResponse"):
                 arms_checked += 1
                 chk = [n for n in walk(arm["body"]) if callee_matches(n, ["Builder::check_specifier"])]
                 vis = [n for n in walk(arm["body"]) if callee_matches(n, ["Builder::visit"])]
@@ -187,7 +187,7 @@ def run(F, R, tier):
     R.floor("C03-c result arms in resolve_pending", arms_checked, 2)
 
     vis = F.body("graph::Builder::visit")
-    vm = [n for n in walk(vis["body"]) if n["k"] == "Match" and "response" in expr_text(n["scrut"])]
+    vm = [n for n in walk(vis["body"]) if n["k"] == "Match" and (F.ty(n["scrut"]) or "") == "graph::PendingInfoResponse"]
     if R.ob("C03-c", "visit matches on the response", len(vm) >= 1, "no match on `response` in visit", vis["file"]):
         m = vm[0]
         covered = set()
